@@ -447,7 +447,8 @@ impl<'a, F: IVP> SolOut for DefaultSolOut<'a, F> {
             }
             
             // Normal output: record endpoint (avoid duplicates)
-            if self.t.is_empty() || (self.t.last().unwrap() - *x).abs() > self.tol {
+            // (exact comparison: steps shorter than the 1e-12 matching tolerance are still steps)
+            if self.t.is_empty() || *self.t.last().unwrap() != *x {
                 self.t.push(*x);
                 self.y.push(y.to_vec());
             }
